@@ -713,7 +713,7 @@ def run_threads(chooser, jobs):
         t.start()
     sched.sems[0].release()
     for t in threads:
-        t.join(20)
+        t.join(120)
     hung = any(t.is_alive() for t in threads)
     _SCHED[0] = None
     return results, sched.points, hung
